@@ -57,6 +57,7 @@ type poolResult struct {
 	Goroutines     int    `json:"goroutines"`
 	MaxBurst       int    `json:"max_burst"`
 	Procs0         int    `json:"procs0"`
+	AboveNumCPU    int    `json:"above_numcpu"`
 }
 
 type rwResult struct {
@@ -68,6 +69,45 @@ type rwResult struct {
 	Deadlock bool  `json:"deadlock"`
 }
 
+// procLadder: GOMAXPROCS values below, equal to and ABOVE the number of CPUs, and back (the per-P array of a Pool
+// is re-allocated when a P id beyond its size shows up; RWMutex shards are fixed at init and indexed modulo).
+func procLadder() []int {
+	n := runtime.NumCPU()
+	half := n / 2
+	if half < 2 {
+		half = 2
+	}
+	return []int{2, half, n, n + 1, 2 * n, n + n/2 + 1, n, 3, 2 * n, half, n + 2, 1, 2*n + 1, n}
+}
+
+// burners keep every P busy until stop is closed, so that the storm's goroutines are really scheduled on the
+// high-numbered Ps (an idle runtime parks them).
+func startBurners(k int, stop chan struct{}) *sync.WaitGroup {
+	var bw sync.WaitGroup
+	for b := 0; b < k; b++ {
+		bw.Add(1)
+		go func() {
+			defer bw.Done()
+			x := 0
+			for {
+				select {
+				case <-stop:
+					burnSink = x
+					return
+				default:
+				}
+				for i := 0; i < 20000; i++ {
+					x += i ^ (x >> 3)
+				}
+				runtime.Gosched()
+			}
+		}()
+	}
+	return &bw
+}
+
+var burnSink int
+
 // ---------- child: pool storm ----------
 
 func poolStorm(seed uint64, idx int, thorough bool) poolResult {
@@ -77,7 +117,8 @@ func poolStorm(seed uint64, idx int, thorough bool) poolResult {
 	}
 	var res poolResult
 	res.HasNew = !rng.Chance(1, 6)
-	procs0 := []int{2, 3, 4, 8, 16}[rng.Intn(5)]
+	ladder := procLadder()
+	procs0 := ladder[rng.Intn(len(ladder))]
 	runtime.GOMAXPROCS(procs0)
 	res.Procs0 = procs0
 	var clock, ids int64
@@ -201,8 +242,10 @@ func poolStorm(seed uint64, idx int, thorough bool) poolResult {
 	var cwg sync.WaitGroup
 	cwg.Add(1)
 	crng := rng.Fork()
+	burn := startBurners(2*runtime.NumCPU()+4, stop)
 	go func() {
 		defer cwg.Done()
+		step := crng.Intn(len(ladder))
 		for {
 			select {
 			case <-stop:
@@ -211,9 +254,13 @@ func poolStorm(seed uint64, idx int, thorough bool) poolResult {
 			}
 			runtime.GC()
 			res.GCs++
-			if crng.Chance(1, 2) {
-				runtime.GOMAXPROCS([]int{1, 2, 3, 4, 6, 8, 16}[crng.Intn(7)])
+			if crng.Chance(2, 3) { // walk the ladder: below, equal to, above NumCPU and back, a GC between two changes
+				step = (step + 1) % len(ladder)
+				runtime.GOMAXPROCS(ladder[step])
 				res.ProcChanges++
+				if ladder[step] > runtime.NumCPU() {
+					res.AboveNumCPU++
+				}
 			}
 			time.Sleep(time.Duration(crng.Range(20, 200)) * time.Microsecond)
 		}
@@ -222,6 +269,7 @@ func poolStorm(seed uint64, idx int, thorough bool) poolResult {
 	wg.Wait()
 	close(stop)
 	cwg.Wait()
+	burn.Wait()
 	for res.GCs < 8 { // at least 8 cycles in every run
 		runtime.GC()
 		res.GCs++
@@ -278,12 +326,13 @@ func poolHammer(seed uint64, idx int, thorough bool) hammerResult {
 		rng = rng.Fork()
 	}
 	var res hammerResult
-	res.Procs = []int{2, 4, 8, 16}[rng.Intn(4)]
+	ladder := procLadder()
+	res.Procs = ladder[rng.Intn(len(ladder))]
 	runtime.GOMAXPROCS(res.Procs)
 	var ids int64
 	var detail atomic.Value
 	pool := &syncx.Pool{New: func() interface{} { return &pobj{id: atomic.AddInt64(&ids, 1)} }}
-	G := res.Procs*2 + rng.Intn(8)
+	G := 4*runtime.NumCPU() + 2 + rng.Intn(8) // more goroutines than the largest GOMAXPROCS of the ladder
 	res.Goroutines = G
 	dur := 1200 * time.Millisecond
 	if thorough {
@@ -328,6 +377,7 @@ func poolHammer(seed uint64, idx int, thorough bool) hammerResult {
 		}(g, rng.Fork())
 	}
 	stop := make(chan struct{})
+	hstep := rng.Intn(len(ladder))
 	go func() {
 		for {
 			select {
@@ -337,7 +387,9 @@ func poolHammer(seed uint64, idx int, thorough bool) hammerResult {
 			}
 			runtime.GC()
 			res.GCs++
-			time.Sleep(2 * time.Millisecond)
+			hstep = (hstep + 1) % len(ladder)
+			runtime.GOMAXPROCS(ladder[hstep])
+			time.Sleep(time.Duration(5+hstep) * time.Millisecond)
 		}
 	}()
 	wg.Wait()
@@ -453,14 +505,18 @@ func rwStorm(seed uint64, idx int, thorough bool) rwResult {
 	// GOMAXPROCS changes while the storm runs (the shard of a reader is its P modulo the shard count)
 	stop := make(chan struct{})
 	crng := rng.Fork()
+	rladder := procLadder()
+	rstep := crng.Intn(len(rladder))
 	go func() {
 		for {
 			select {
 			case <-stop:
 				return
 			case <-time.After(time.Duration(crng.Range(5, 40)) * time.Millisecond):
-				if idx%2 == 1 {
-					runtime.GOMAXPROCS([]int{4, 8, 16, 16, 16}[crng.Intn(5)])
+				if idx%2 == 1 { // walk the ladder (shards are fixed at init: P ids wrap around modulo the shard count)
+					rstep = (rstep + 1) % len(rladder)
+					runtime.GOMAXPROCS(rladder[rstep])
+					runtime.GC()
 				}
 			}
 		}
@@ -661,7 +717,7 @@ func main() {
 	// ---- meanwhile nothing else runs in this process; the sequential tie needs GOMAXPROCS 1, so it waits ----
 	jwg.Wait()
 
-	totalEvents, totalGC, totalPC, stolenRuns := 0, 0, 0, 0
+	totalEvents, totalGC, totalPC, stolenRuns, totalAbove := 0, 0, 0, 0, 0
 	var hammerOps int64
 	type pcase struct {
 		term, label string
@@ -701,11 +757,12 @@ func main() {
 			totalEvents += len(r.Events)
 			totalGC += r.GCs
 			totalPC += r.ProcChanges
+			totalAbove += r.AboveNumCPU
 			if r.MaxBurst > 256 {
 				stolenRuns++
 			}
 			meta := map[string]interface{}{"child": fmt.Sprintf("pool:%d", j.idx), "seed": o.Seed, "has_new": r.HasNew, "events": len(r.Events), "gcs": r.GCs,
-				"gomaxprocs_changes": r.ProcChanges, "goroutines": r.Goroutines, "max_burst": r.MaxBurst, "procs0": r.Procs0}
+				"gomaxprocs_changes": r.ProcChanges, "goroutines": r.Goroutines, "max_burst": r.MaxBurst, "procs0": r.Procs0, "changes_to_above_numcpu": r.AboveNumCPU, "numcpu": runtime.NumCPU()}
 			if r.FlagViolations > 0 {
 				w.Violation(label, "ownership flag CAS failed: an object was handed out while another caller owned it",
 					map[string]interface{}{"count": r.FlagViolations, "example": r.FlagDetail, "run": meta})
@@ -766,6 +823,7 @@ func main() {
 	w.Notes["hammer_get_put_calls_flag_checked"] = hammerOps
 	w.Notes["forced_gc_cycles"] = totalGC
 	w.Notes["gomaxprocs_changes"] = totalPC
+	w.Notes["gomaxprocs_changes_to_above_numcpu"] = totalAbove
 	w.Notes["runs_with_bursts_over_256"] = stolenRuns
 	w.Close(o, "pool history: one case = the complete Get/Put history of one syncx.Pool under a goroutine storm (goroutines > Ps, bursts > 256, >= 8 forced GCs, GOMAXPROCS changes), "+
 		"non-trivial always; sequential: one case = one single-P trace of Get/Put bursts with P-local counters, non-trivial when some Get returned an object; "+
